@@ -648,7 +648,12 @@ def build_population_circuit(ps):
 def check_population(ps, T=0.5, dt=0.05, solver="euler"):
     """C16-B: the Population/Connectivity circuit equals the explicit node-and-edge network, unit by unit."""
     explicit = population_to_explicit(ps)
-    _, ref = mdl.spec_fixed_step(explicit, T, dt, dt, solver)
+    adaptive = solver == "scipy"
+    if adaptive:
+        # reference for an adaptive solver: Heun iterates of the explicit network on a 50 times finer grid, sampled every dt
+        _, ref = mdl.spec_fixed_step(explicit, T, dt / 50.0, dt, "heun")
+    else:
+        _, ref = mdl.spec_fixed_step(explicit, T, dt, dt, solver)
     fails = []
     try:
         tpl = build_population_circuit(ps)
@@ -659,9 +664,10 @@ def check_population(ps, T=0.5, dt=0.05, solver="euler"):
                     if k == "de":
                         outs[f"{pname}.{o}.{l}"] = f"{pname}/{o}/{l}"
         df = tpl.run(simulation_time=T, step_size=dt, solver=solver, outputs=outs, verbose=False, clear=bool(SEQUENCE_MODE), in_place=True,
-                     float_precision="float64")
+                     float_precision="float64", **(dict(method="RK45", rtol=1e-9, atol=1e-11) if adaptive else {}))
     except Exception as exn:
         return [dict(clause="the population circuit compiles and runs", observed=f"{type(exn).__name__}: {exn}")]
+    tol = dict(rtol=1e-4, atol=1e-6) if adaptive else dict(rtol=1e-7, atol=1e-10)
     def norm(c):
         if isinstance(c, tuple):
             parts = [x for x in c if not (x is None or (isinstance(x, float) and x != x))]
@@ -683,7 +689,7 @@ def check_population(ps, T=0.5, dt=0.05, solver="euler"):
             col = df.iloc[:, labels.index(want_label)]
             got = np.asarray(col, dtype=float).reshape(len(df.index), -1)[:, 0]
             want = ref[f"{pname}_{i}/{o}/{v}"]
-            if got.shape != want.shape or not np.allclose(got, want, rtol=1e-7, atol=1e-10):
+            if got.shape != want.shape or not np.allclose(got, want, **tol):
                 bad = int(np.argmax(np.abs(got - want))) if got.shape == want.shape else -1
                 fails.append(dict(clause="population unit equals the explicit network's node", var=f"{pname}_{i}/{o}/{v}", row=bad,
                                   observed=float(got[bad]) if bad >= 0 else list(got.shape), expected=float(want[bad]) if bad >= 0 else list(want.shape)))
@@ -861,11 +867,12 @@ def check_frontends(model, route, vectorize, seed=0, style=0):
     return fails
 
 
-def check_grid_search(model, grid, param_map, outputs, vectorize=True, permute=False, as_frame=None, inputs=None, T=0.5, dt=0.05):
-    """C17-B: every row of the parameter table <-> the time series of an individual run with those values."""
+def check_grid_search(model, grid, param_map, outputs, vectorize=True, permute=False, as_frame=None, inputs=None, T=0.5, dt=0.05, as_path=False):
+    """C17-B: every row of the parameter table <-> the time series of an individual run with those values.
+    as_path: the circuit is handed over as the path of a YAML definition (string) instead of a template object."""
     import pandas as pd
     from pyrates.utility import grid_search
-    tpl = mdl.build_templates(model)
+    tpl = mdl.write_yaml(model) if as_path else mdl.build_templates(model)
     g = grid
     if as_frame is not None:
         g = pd.DataFrame(grid)
@@ -1010,10 +1017,12 @@ def method_of_steps(model, T, h=1e-3):
     return np.array(ts), np.array(ys), svars
 
 
-def check_dde_run(model, solver, T=2.0, dt=1e-3, dts=0.05, precision="float64"):
+def check_dde_run(model, solver, T=2.0, dt=1e-3, dts=0.05, precision="float64", method=None):
     """C10-B2: run converges to the solution of the DDE with constant pre-history."""
     try:
         kw = dict(rtol=1e-8, atol=1e-10) if solver == "scipy" else {}
+        if method:
+            kw["method"] = method      # an explicitly chosen scheme must not change which history the delayed terms read
         df, outputs, _ = run_model(model, T, dt, dts, solver, False, **kw)
     except Exception as exn:
         return [dict(clause="run returns a result for a delayed model", observed=f"{type(exn).__name__}: {exn}")]
